@@ -250,4 +250,3 @@ func judgeObserved(d *Discharger, t *FamTemplate, args []string, observed string
 	}
 	return "noanswer", out.String()
 }
-
